@@ -275,9 +275,10 @@ def check(col: Collector, tier: str):
     if br is None:
         raise AnalysisError("process_metadata has no add_cpp_function branch")
     cs = [c for c in ast.walk(ast.Module(body=br.body, type_ignores=[])) if isinstance(c, ast.Call) and call_name(c) == "CPPCodeSpecification"]
-    want = ["md['name']", "md['include_files']", "md['arguments']", "md['code']", "md['result_name'] if 'result_name' in md else 'result'",
-            "parse_type(md['return_type'])", "bool(md['return_is_collection']) if 'return_is_collection' in md else False",
-            "md['method_object'] if 'method_object' in md else None", "md['instance_object'] if 'instance_object' in md else None"]
+    # (optional keys read in the normal form of E-NORM N13: `md[k] if k in md else v` is md.get(k, v))
+    want = ["md['name']", "md['include_files']", "md['arguments']", "md['code']", "md.get('result_name', 'result')",
+            "parse_type(md['return_type'])", "bool(md.get('return_is_collection', False))",
+            "md.get('method_object')", "md.get('instance_object')"]
     if len(cs) == 1:
         got = [src(a) for a in cs[0].args]
         for i, (w, fld) in enumerate(zip(want, fields)):
